@@ -192,6 +192,26 @@ FW == {Prog("FW", <<S(Asg("=", Var("s"), Bin("<<", Var("a"), Num(1))))>>), Prog(
        Prog("FW", <<S(Asg("=", Var("ss"), Un("!", Var("a"))))>>), Prog("FW", <<S(Asg("=", Var("s"), Un("~", Var("s"))))>>),
        Prog("FW", <<S(Asg("=", Var("s"), Bin("<", Var("a"), Var("b"))))>>), Prog("FW", <<S(Asg("=", Var("s"), Call("f", <<Var("b")>>)))>>),
        Prog("FW", <<S(Asg("=", Var("s"), Cond(Bin("<", Var("a"), Num(200)), Num(5), Var("X"))))>>)}
+\* FL: local variables, nested blocks and shadowing (lexical scoping).  Every local has a unique name (what
+\* CSem sees) and a short C name (what the source says): L("i1","i") and L("i2","i") are two different objects
+\* both spelled i.  A reference is resolved by the generator to the innermost declaration in scope.
+Decl(n, cn, ct, init) == [k |-> "decl", name |-> n, cname |-> cn, ctype |-> ct, init |-> init]
+LV(n, cn) == [k |-> "var", name |-> n, cname |-> cn]
+Blk(b) == [k |-> "block", b |-> b]
+LProg(body, locals) == [fam |-> "FL", body |-> body, locals |-> locals]
+Lc(n, w, sg) == [name |-> n, w |-> w, sg |-> sg]
+FL == {LProg(<<Decl("i1", "i", "char", None), S(Asg("=", LV("i1", "i"), e1)), Blk(<<Decl("i2", "i", "char", None), S(Asg("=", LV("i2", "i"), e2)), S(Asg("=", Var("c"), LV("i2", "i")))>>),
+               S(Asg("=", Var("b"), LV("i1", "i")))>>, <<Lc("i1", 8, FALSE), Lc("i2", 8, FALSE)>>) : e1 \in {Var("a"), Num(7), Var("X")}, e2 \in {Var("b"), Num(9), Bin("+", Var("a"), Num(1))}}
+      \cup {LProg(<<Decl("i1", "i", "char", e1), Decl("j1", "j", "char", e2), S(Asg("=", Var("X"), LV("i1", "i"))), S(Asg("=", Var("Y"), LV("j1", "j")))>>, <<Lc("i1", 8, FALSE), Lc("j1", 8, FALSE)>>) :
+               e1 \in {Num(7), Var("a")}, e2 \in {Num(8), Var("b"), Bin("-", Var("a"), Var("b"))}}
+      \cup {LProg(<<Decl("i1", "i", "char", None), S(Asg("=", LV("i1", "i"), Var("X"))), If(Var("X"), <<Decl("i2", "i", "char", None), S(Asg("=", LV("i2", "i"), Var("X"))), S(Asg(op, LV("i2", "i"), Num(3)))>>, <<>>),
+               S(Asg("=", LV("i1", "i"), Bin("+", LV("i1", "i"), Var("Y")))), S(Asg("=", Var("c"), LV("i1", "i")))>>, <<Lc("i1", 8, FALSE), Lc("i2", 8, FALSE)>>) : op \in {"+", "=", "&"}}
+      \cup {LProg(<<Decl("s1", "w", "short", None), S(Asg("=", LV("s1", "w"), e1)), Blk(<<Decl("c1", "w", "char", None), S(Asg("=", LV("c1", "w"), Var("a"))), S(Asg("+", Var("c"), LV("c1", "w")))>>),
+               S(Asg("=", Var("s"), LV("s1", "w")))>>, <<Lc("s1", 16, TRUE), Lc("c1", 8, FALSE)>>) : e1 \in {Var("t"), Num(300), Var("a")}}
+      \cup {LProg(<<Decl("k1", "k", "char", None), For(Asg("=", LV("k1", "k"), Num(0)), Bin("<", LV("k1", "k"), Num(3)), Inc(FALSE, 1, LV("k1", "k")),
+                    <<Decl("t1", "tmp", "char", None), S(Asg("=", LV("t1", "tmp"), Idx("arr", LV("k1", "k")))), S(Asg("+", Var("c"), LV("t1", "tmp")))>>)>>, <<Lc("k1", 8, FALSE), Lc("t1", 8, FALSE)>>)}
+      \cup {LProg(<<Decl("a1", "a", "char", None), S(Asg("=", LV("a1", "a"), e1)), S(Asg("=", Var("b"), LV("a1", "a"))), S(Asg("=", Var("c"), Call("shd", <<LV("a1", "a")>>)))>>, <<Lc("a1", 8, FALSE)>>) :
+               e1 \in {Num(5), Var("X"), Bin("+", Var("b"), Num(1))}}     \* a local spelled like the global a: the global is untouched
 \* F9: operand-kind coverage: every destination kind with every source kind, plain and compound, including
 \* Y-indexed arrays of shorts, pointer dereference and pointer indexing (the addressing modes C04/C13 quantify over)
 Leaf9 == Leaf \cup {Idx("sarr", Var("Y")), Idx("tab", Var("Y")), Deref("p"), Idx("p", Var("Y")), Idx("arr", Num(0)), Idx("sarr", Num(1))}
@@ -215,6 +235,22 @@ F8 == UNION {{Prog("F8", <<S(Asg("=", r, v)), m, S(Asg("=", r, v)), S(Asg("=", V
                k \in {1, 3}, mx \in {S(Inc(FALSE, 1, Var("X"))), S(Inc(TRUE, -1, Var("X"))), S(Asg("=", Var("X"), Num(2))), S(Asg("=", Idx("arr", Var("X")), Num(9))), S(Asg("=", Var("X"), Var("Y")))}}
       \cup {Prog("F8", <<S(Asg("=", Var("Y"), Num(k))), S(Asg("=", Var("c"), Idx("arr", Var("Y")))), my, S(Asg("=", Var("b"), Idx("arr", Var("Y"))))>>) :
                k \in {1, 3}, my \in {S(Inc(FALSE, 1, Var("Y"))), S(Inc(TRUE, -1, Var("Y"))), S(Asg("=", Var("Y"), Num(2))), S(Asg("=", Idx("arr", Var("Y")), Num(9))), S(Asg("=", Var("Y"), Var("X")))}}
+\* F8g: the general form of F8: (register R loaded from L) ; any statement M of a broad pool ; (R loaded from L again) ;
+\* observe.  M covers stores through aliases (constant index vs register index vs pointer), register computations
+\* through the accumulator, calls, conditionals, loops ending in break, 16-bit operations.
+MPool == {S(Asg("=", Idx("arr", Num(1)), Var("Y"))), S(Asg("=", Idx("arr", Num(2)), Var("b"))), S(Asg("=", Idx("arr", Var("X")), Var("b"))), S(Asg("=", Idx("arr", Var("Y")), Var("b"))),
+          S(Asg("=", Var("a"), Var("b"))), S(Inc(FALSE, 1, Var("a"))), S(Inc(FALSE, 1, Var("X"))), S(Inc(FALSE, -1, Var("Y"))), S(Asg("=", Var("X"), Var("b"))),
+          S(Asg("=", Var("Y"), Bin("+", Var("b"), Var("c")))), S(Asg("=", Var("X"), Bin("&", Var("a"), Num(3)))), S(Asg("=", Var("Y"), Idx("arr", Var("X")))),
+          S(Asg("+", Var("s"), Var("a"))), S(Asg("<<", Var("s"), Num(1))), S(Asg("=", Var("b"), Call("f", <<Var("a")>>))), S(Call("h", <<>>)), S(Call("z0", <<>>)),
+          If(Var("b"), <<Set("a", 1)>>, <<>>), If(Var("b"), <<Set("X", 2)>>, <<Set("X", 1)>>), If(Bin("<", Var("a"), Var("b")), <<S(Inc(FALSE, 1, Var("Y")))>>, <<>>),
+          While(Var("b"), <<S(Inc(FALSE, -1, Var("b")))>>), While(Var("sb"), <<Set("X", 2), Break>>), While(Var("sb"), <<If(Var("b"), <<Set("Y", 1), Break>>, <<>>), Set("Y", 3), Break>>),
+          For(Asg("=", Var("Y"), Num(0)), Bin("<", Var("Y"), Num(2)), Inc(FALSE, 1, Var("Y")), <<S(Inc(FALSE, 1, Var("sb")))>>),
+          S(Asg("=", Deref("p"), Var("b"))), S(Asg("=", Idx("p", Var("Y")), Var("b"))), S(Asg("=", Var("sb"), Idx("arr", Var("X")))), S(Asg("=", Var("sb"), Idx("arr", Var("Y")))),
+          S(Asg("=", Var("sa"), Un("-", Var("sa")))), S(Asg("=", Var("a"), Bin("+", Var("a"), Var("b")))), S(Asg("=", Var("sb"), Bin("<", Var("a"), Var("b")))),
+          S(Asg("=", Var("X"), Num(1))), S(Asg("=", Var("Y"), Num(1))), S(Asg("=", Var("a"), Num(1))), Switch(Var("b"), <<Case(<<1>>, <<Set("a", 3), Break>>), Default(<<Set("X", 1)>>)>>)}
+LPool == {Var("a"), Idx("arr", Var("X")), Idx("arr", Var("Y")), Idx("arr", Num(2)), Idx("arr", Num(1)), Num(1), Num(0), Idx("tab", Var("X")), Deref("p")}
+F8g == {Prog("F8g", <<Set("X", 1), Set("Y", 2), S(Asg("=", r, l)), S(Asg("=", Var("t"), r)), m, S(Asg("=", r, l)), S(Asg("=", Var("c"), r))>>) :
+          r \in {Var("X"), Var("Y"), Var("c")}, l \in LPool, m \in MPool}
 \* FX: explicit hardware-access statements mixed with ordinary code (C18).  PORT1..PORT3 are io cells declared by the driver.
 Load(e) == [k |-> "load", e |-> e]
 Store(e) == [k |-> "store", e |-> e]
@@ -270,7 +306,7 @@ RW == {Pair2("commute", <<S(Asg("=", d, Bin(op, l, r)))>>, <<S(Asg("=", d, Bin(o
       \cup {Pair2("callbody", <<S(Asg("=", d, Call("g", <<x, y>>)))>>, <<S(Asg("=", d, Bin("-", x, y)))>>) : d \in {Var("a"), Var("Y")}, x \in Arg, y \in {Var("b"), Num(1)}}
       \cup {Pair2("callbody", <<S(Call("h", <<>>)), S(Asg("=", Var("b"), Var("a")))>>, <<S(Inc(FALSE, 1, Var("a"))), S(Asg("=", Var("b"), Var("a")))>>)}
       \cup {Pair2("callbody", <<S(Call("w", <<x>>))>>, <<S(Asg("=", Var("c"), x))>>) : x \in Arg}
-AllFams == FW \cup F5c \cup F6 \cup F8 \cup F9 \cup F1a \cup F1b \cup F1c \cup F1d \cup F1e \cup F1f \cup F1g \cup F2a \cup F2b \cup F2c \cup F2z \cup F2s
+AllFams == FW \cup F8g \cup FL \cup F5c \cup F6 \cup F8 \cup F9 \cup F1a \cup F1b \cup F1c \cup F1d \cup F1e \cup F1f \cup F1g \cup F2a \cup F2b \cup F2c \cup F2z \cup F2s
            \cup F3a \cup F3b \cup F3c \cup F4 \cup F5a \cup F5b \cup F7a \cup F7b \cup F7c
 Family ==
   CASE Fam = "ALL" -> AllFams [] Fam = "RW" -> RW [] Fam = "FX" -> FX \cup FS
@@ -279,7 +315,7 @@ Family ==
     [] Fam = "F2a" -> F2a [] Fam = "F2b" -> F2b [] Fam = "F2c" -> F2c [] Fam = "F2z" -> F2z [] Fam = "F2s" -> F2s
     [] Fam = "F3a" -> F3a [] Fam = "F3b" -> F3b [] Fam = "F3c" -> F3c
     [] Fam = "F4" -> F4 [] Fam = "F5a" -> F5a [] Fam = "F5b" -> F5b
-    [] Fam = "F7a" -> F7a [] Fam = "F7b" -> F7b [] Fam = "F7c" -> F7c [] Fam = "FW" -> FW [] Fam = "F5c" -> F5c [] Fam = "F6" -> F6 [] Fam = "F8" -> F8 [] Fam = "F9" -> F9
+    [] Fam = "F7a" -> F7a [] Fam = "F7b" -> F7b [] Fam = "F7c" -> F7c [] Fam = "FW" -> FW [] Fam = "FL" -> FL [] Fam = "F5c" -> F5c [] Fam = "F6" -> F6 [] Fam = "F8" -> F8 [] Fam = "F8g" -> F8g [] Fam = "F9" -> F9
 
 VARIABLE prog
 Init == prog \in Family
